@@ -13,6 +13,7 @@ use rand_chacha::ChaCha8Rng;
 use crate::engine::{expand, fail, CaseResult, Ctx, Rec, Source, Tape};
 use crate::pk::{packet_body, packet_with_header, tag_of};
 use crate::refimpl::gen::{self, Gen};
+use crate::refimpl::keys;
 use crate::refimpl::wire::{self, LenKind};
 use crate::zoo::{self, Kind};
 
@@ -891,8 +892,119 @@ fn api_built_packet_case(t: &mut Tape, rec: &mut Rec) -> CaseResult {
     Ok(())
 }
 
+
+// ---------------------------------------------------------------------------------------------
+// freshly generated keys: value-dependent encodings of secret and public material
+// ---------------------------------------------------------------------------------------------
+
+fn fresh_key_case(t: &mut Tape, rec: &mut Rec) -> CaseResult {
+    use pgp::composed::{EncryptionCaps, KeyType, SecretKeyParamsBuilder, SubkeyParamsBuilder};
+    use pgp::crypto::ecc_curve::ECCCurve;
+    use pgp::types::{KeyVersion, Timestamp};
+    let idx = t.u64();
+    let (version, prim, sub, name) = match idx % 4 {
+        0 | 1 => (KeyVersion::V4, KeyType::Ed25519Legacy, KeyType::ECDH(ECCCurve::Curve25519Legacy), "EdDSA-legacy + Curve25519-legacy (v4)"),
+        2 => (KeyVersion::V4, KeyType::ECDSA(ECCCurve::P256), KeyType::ECDH(ECCCurve::P256), "ECDSA/ECDH P-256 (v4)"),
+        _ => (KeyVersion::V6, KeyType::Ed25519, KeyType::X25519, "Ed25519 + X25519 (v6)"),
+    };
+    let mut rng = ChaCha8Rng::seed_from_u64(0xF4E5_0000_0000 ^ idx);
+    let mut b = SecretKeyParamsBuilder::default();
+    b.version(version).key_type(prim).can_certify(true).can_sign(true).created_at(Timestamp::from_secs(1_650_000_000 + (idx % 1000) as u32)).primary_user_id(format!("fresh {idx}"));
+    b.subkey(SubkeyParamsBuilder::default().version(version).key_type(sub).can_encrypt(EncryptionCaps::All).created_at(Timestamp::from_secs(1_650_000_001)).build().map_err(|e| crate::engine::Fail { sig: "C05:fresh-key-params".into(), detail: e.to_string() })?);
+    let key = b.build().map_err(|e| crate::engine::Fail { sig: "C05:fresh-key-params".into(), detail: e.to_string() })?.generate(&mut rng).map_err(|e| crate::engine::Fail { sig: "C05:fresh-key-generate".into(), detail: e.to_string() })?;
+    rec.label(format!("fresh-key:{name}"));
+    rec.nontrivial(idx);
+    rec.describe(|| format!("freshly generated {name} key #{idx}"));
+    let check = |rec: &mut Rec, what: &str, k: &SignedSecretKey| {
+        let bytes = match k.to_bytes() {
+            Ok(b) => b,
+            Err(e) => {
+                rec.soft_fail("C05:fresh-key-fails-to-serialize", format!("{what} {name} #{idx}: {e}"));
+                return;
+            }
+        };
+        if k.write_len() != bytes.len() {
+            rec.soft_fail("C05:SignedSecretKey-write-len-differs-from-bytes-written", format!("{what} {name} #{idx}: write_len {} but {} bytes written", k.write_len(), bytes.len()));
+        }
+        // the emitted stream de-frames into packets whose announced lengths are right
+        match wire::split_packets(&bytes) {
+            Ok(ps) => {
+                let expected = if version == KeyVersion::V6 { 6 } else { 5 };
+                if ps.len() != expected {
+                    rec.soft_fail("C05:written-header-does-not-match-body", format!("{what} {name} #{idx}: certificate of {expected} packets de-frames into {}", ps.len()));
+                }
+                for p in &ps {
+                    if p.tag == 5 || p.tag == 7 {
+                        let short = keys::parse_key(&p.body, true).is_none();
+                        if short {
+                            rec.soft_fail("C05:written-key-packet-does-not-decode", format!("{what} {name} #{idx}: tag {} body {} bytes", p.tag, p.body.len()));
+                        }
+                    }
+                }
+            }
+            Err(e) => rec.soft_fail("C05:written-header-does-not-match-body", format!("{what} {name} #{idx}: {e}")),
+        }
+        match SignedSecretKey::from_bytes(&bytes[..]) {
+            Ok(k2) => {
+                if &k2 != k {
+                    rec.soft_fail("C05:reparsed-value-differs", format!("{what} {name} #{idx}"));
+                }
+                match k2.to_bytes() {
+                    Ok(b2) if b2 == bytes => {}
+                    _ => rec.soft_fail("C05:canonical-input-reencoded-differently", format!("{what} {name} #{idx}")),
+                }
+            }
+            Err(e) => rec.soft_fail("C05:own-serialization-rejected", format!("{what} {name} #{idx}: {e}")),
+        }
+    };
+    check(rec, "generated", &key);
+    // value-dependent widths: count the cases that exercise them
+    for p in wire::split_packets(&key.to_bytes().unwrap_or_default()).unwrap_or_default() {
+        if (p.tag == 5 || p.tag == 7) && p.body.len() >= 2 {
+            if let Some(kb) = keys::parse_key(&p.body, true) {
+                if let Some(keys::Protection::Plain { material_and_checksum }) = &kb.protection {
+                    if material_and_checksum.len() >= 2 {
+                        let bits = u16::from_be_bytes([material_and_checksum[0], material_and_checksum[1]]) as usize;
+                        if kb.alg == 22 || kb.alg == 18 || kb.alg == 19 {
+                            if bits <= 248 {
+                                rec.label("fresh-key:secret-scalar-with-leading-zero-octet");
+                            }
+                        }
+                    }
+                }
+            }
+        }
+    }
+    // lock and unlock through the API, lengths and round trip again
+    let mut locked = key.clone();
+    let pw = Password::from("fresh");
+    let mut ok = locked.primary_key.set_password_with_s2k(&pw, S2kParams::Cfb { sym_alg: SymmetricKeyAlgorithm::AES128, s2k: StringToKey::new_iterated(&mut rng, HashAlgorithm::Sha256, 0), iv: vec![7u8; 16].into() }).is_ok();
+    for s in locked.secret_subkeys.iter_mut() {
+        ok &= s.key.set_password_with_s2k(&pw, S2kParams::Cfb { sym_alg: SymmetricKeyAlgorithm::AES128, s2k: StringToKey::new_iterated(&mut rng, HashAlgorithm::Sha256, 0), iv: vec![9u8; 16].into() }).is_ok();
+    }
+    if ok {
+        check(rec, "locked", &locked);
+        let mut unlocked = locked.clone();
+        let mut ok2 = unlocked.primary_key.remove_password(&pw).is_ok();
+        for s in unlocked.secret_subkeys.iter_mut() {
+            ok2 &= s.key.remove_password(&pw).is_ok();
+        }
+        if ok2 {
+            check(rec, "unlocked again", &unlocked);
+            if unlocked.to_bytes().ok() != key.to_bytes().ok() {
+                rec.soft_fail("C05:unlocked-key-differs-from-original", format!("{name} #{idx}"));
+            }
+        } else {
+            rec.soft_fail("C05:fresh-key-does-not-unlock", format!("{name} #{idx}"));
+        }
+    } else {
+        rec.soft_fail("C05:fresh-key-does-not-lock", format!("{name} #{idx}"));
+    }
+    Ok(())
+}
+
 pub fn run(ctx: &Ctx) {
-    ctx.set_rule("generated: packet bodies produced field by field by the harness' own RFC 9580 encoder (signatures v3/v4/v6 with all subpacket types incl. critical/unknown/long/embedded, SKESK v4/v5/v6, PKESK v3/v6, OPS v3/v6, literal/compressed/SEIPD/SED/marker/padding/trust/user id/user attribute, public and secret (sub)keys of all zoo algorithms with every S2K usage/type/cipher) under canonical new-format or legacy headers, every one-octet id drawn from the listed values or 0..255; oracle on every accepted packet: re-serialization identical to the input, write_len == bytes written (packet, body, with header), header de-frames to exactly the body, parse(serialize(v)) == v; API group: zoo certificates (public/secret/locked), set_password_with_s2k/remove_password, Subpacket::regular over multi-byte strings, unhashed subpacket push/insert/remove, detached signatures, re-framed literal packets; api-built-packets: LiteralData::from_bytes/from_str, OnePassSignature::v3/v6, PublicKeyEncryptedSessionKey::from_session_key_v3/v6 to every zoo recipient, SymKeyEncryptedSessionKey::encrypt_v4/v6, SymEncryptedProtectedData::encrypt_seipdv1/v2 at chunk edges, UserId::from_str, UserAttribute::new_image at length-class edges, Padding::new, under new and legacy headers - same oracle; api-subpacket-values: every SubpacketData variant built through constructors and setters (KeyFlags/Features from default or parsed 0..3 octets then any setter sequence, preference lists of arbitrary ids and lengths, notations, revocation keys, fingerprints, experimental/other ids, ...) carried in the hashed or unhashed area of a freshly made v4/v6 signature: subpacket and packet write_len == bytes written, header de-frames, parse(serialize(v)) == v, identical re-encoding, still verifies; non-trivial = packet accepted by the parser / API object built; distinct = (tag, body length, description)");
+    ctx.set_rule("generated: packet bodies produced field by field by the harness' own RFC 9580 encoder (signatures v3/v4/v6 with all subpacket types incl. critical/unknown/long/embedded, SKESK v4/v5/v6, PKESK v3/v6, OPS v3/v6, literal/compressed/SEIPD/SED/marker/padding/trust/user id/user attribute, public and secret (sub)keys of all zoo algorithms with every S2K usage/type/cipher) under canonical new-format or legacy headers, every one-octet id drawn from the listed values or 0..255; oracle on every accepted packet: re-serialization identical to the input, write_len == bytes written (packet, body, with header), header de-frames to exactly the body, parse(serialize(v)) == v; API group: zoo certificates (public/secret/locked), set_password_with_s2k/remove_password, Subpacket::regular over multi-byte strings, unhashed subpacket push/insert/remove, detached signatures, re-framed literal packets; freshly-generated-keys: 4000 (thorough 100000) EdDSA-legacy/Curve25519-legacy, P-256 and v6 Ed25519/X25519 keys from distinct seeds so that leading-zero scalars occur (counted per run), exported, de-framed, re-imported, locked and unlocked through the API, each time with the length and equality oracle; api-built-packets: LiteralData::from_bytes/from_str, OnePassSignature::v3/v6, PublicKeyEncryptedSessionKey::from_session_key_v3/v6 to every zoo recipient, SymKeyEncryptedSessionKey::encrypt_v4/v6, SymEncryptedProtectedData::encrypt_seipdv1/v2 at chunk edges, UserId::from_str, UserAttribute::new_image at length-class edges, Padding::new, under new and legacy headers - same oracle; api-subpacket-values: every SubpacketData variant built through constructors and setters (KeyFlags/Features from default or parsed 0..3 octets then any setter sequence, preference lists of arbitrary ids and lengths, notations, revocation keys, fingerprints, experimental/other ids, ...) carried in the hashed or unhashed area of a freshly made v4/v6 signature: subpacket and packet write_len == bytes written, header de-frames, parse(serialize(v)) == v, identical re-encoding, still verifies; non-trivial = packet accepted by the parser / API object built; distinct = (tag, body length, description)");
     ctx.assume("the harness' encoder emits only canonical encodings (minimal lengths, canonical MPIs); inputs rPGP rejects are counted, not judged");
     zoo::warm(zoo::ALL);
     let keys = harvest_keys();
@@ -905,4 +1017,6 @@ pub fn run(ctx: &Ctx) {
     ctx.group("api-subpacket-values", Source::Random { n, tape_len: 260 }, api_subpacket_case);
     let n = ctx.tier.pick(6_000u64, 150_000);
     ctx.group("api-built-packets", Source::Random { n, tape_len: 200 }, api_built_packet_case);
+    let n = ctx.tier.pick(4_000u64, 100_000);
+    ctx.group("freshly-generated-keys", Source::Indexed { count: n }, fresh_key_case);
 }
